@@ -91,6 +91,9 @@ partial def parseP : Sx → Option (ProgW F)
   | .list [.atom "torotation0", q] => do some (ProgW.toRotation0 (← parseP q))
   | .list [.atom "torotation1", q] => do some (ProgW.toRotation1 (← parseP q))
   | .list [.atom "sep", p, q] => do some (ProgW.sep (← parseP p) (← parseP q))
+  | .list [.atom "fromradec", a, b] => do some (ProgW.fromRaDec (← parseP a) (← parseP b))
+  | .list [.atom "fromradeclen", a, b, l] => do some (ProgW.fromRaDecLength (← parseP a) (← parseP b) (← parseP l))
+  | .list [.atom "fromcyl", r, l, z] => do some (ProgW.fromCylindrical (← parseP r) (← parseP l) (← parseP z))
   | .list [.atom "twovec", a1, a2, p, q] => do
     some (ProgW.twovec (← a1.toNat?) (← a2.toNat?) (← parseP p) (← parseP q))
   | _ => none
